@@ -150,7 +150,7 @@ def image_map_from_string(input_string):
 
     try:
         return imagemap.parseString(input_string)[0]
-    except ParseException:
+    except (ParseException, ValueError):  # ValueError: a coordinate too long for int()
         return ImageMap(entries=[], image=None)
 
 
